@@ -13,6 +13,14 @@ T_(s) == CodePoints(s)
 Num(n, u) == [k |-> "num", bits |-> F64OfNumeral(T_(n)), unit |-> u]
 D(tags) == Dict(tags)
 G(ver, meta, cols, rows) == Grid(T_(ver), meta, cols, rows)
+\* dicts with one plain tag (a | b | c) and optionally one tag of a name the library gives a meaning to elsewhere (id, dis,
+\* name), holding a low or a high value: an order that looks at such a tag first contradicts the order of the others
+DictFam == LET plain == {a, b, T_("c")}
+               special == {T_("id"), T_("dis"), T_("name")}
+               vals == {Ref(T_("a"), <<>>), Ref(T_("z"), <<>>)}
+               Two_(x, y) == IF TextCmp(x[1], y[1]) = -1 THEN <<x, y>> ELSE <<y, x>>
+           IN {D(<<<<p, One>>>>) : p \in plain}
+              \cup {D(Two_(<<p, One>>, <<sp, w>>)) : p \in plain, sp \in special, w \in vals}
 Near ==
     { Num("0", <<>>), Num("-0", <<>>), Num("1", <<>>), Num("1", <<T_("m")>>), Num("1", <<T_("s")>>), Num("2", <<T_("m")>>), Num("-1", <<>>),
       Num("1", <<T_("kW")>>), Num("0", <<T_("m")>>), Num("-0", <<T_("m")>>), Num("1e21", <<>>),
@@ -33,6 +41,7 @@ Near ==
       G("2.0", <<>>, <<Col(a, <<>>)>>, <<>>), G("3.0", <<>>, <<Col(b, <<>>)>>, <<>>), G("3.0", <<>>, <<Col(a, <<>>)>>, <<<<<<a, One>>>>>>),
       G("3.0", <<>>, <<Col(a, <<>>)>>, <<<<<<a, Num("0", <<>>)>>>>>>), G("3.0", <<>>, <<Col(a, <<>>)>>, <<<<<<a, Num("-0", <<>>)>>>>>>),
       G("3.0", <<>>, <<Col(a, <<>>), Col(b, <<>>)>>, <<>>) }
+    \cup DictFam
 Init == v \in Near
 Next == UNCHANGED v
 Spec == Init /\ [][Next]_v
